@@ -157,7 +157,10 @@ func genDNSMessage(r *rand.Rand, adversarial bool, maxRR int) ([]byte, string) {
 	counts := [3]int{r.IntN(maxRR + 1), r.IntN(3), r.IntN(3)}
 	lie := [4]int{}
 	if adversarial && r.IntN(5) == 0 {
-		lie[r.IntN(4)] = []int{-1, 1, 5, 60000}[r.IntN(4)]
+		lie[r.IntN(4)] = []int{-1, 1, 5, 60000, 65535, 32768}[r.IntN(6)]
+		if r.IntN(3) == 0 {
+			lie[1+r.IntN(3)] = []int{65535, 32768, 65534}[r.IntN(3)] // a second count near the top as well
+		}
 	}
 	d.Header(uint16(r.IntN(65536)), uint16(r.IntN(65536)), max(0, qd+lie[0]), max(0, counts[0]+lie[1]), max(0, counts[1]+lie[2]), max(0, counts[2]+lie[3]))
 	styles := map[gen.NameStyle]bool{}
@@ -224,6 +227,17 @@ func genC12(env *core.Env, emit func(core.Case)) {
 		add("owned", sig, b)
 	}
 	ownedLabels = nil
+	// section counts at the top of their 16-bit range (their sum does not fit 16 bits), on top of a valid response
+	for _, cnt := range [][3]int{{1, 0xffff, 0}, {1, 0, 0xffff}, {0x8000, 0x8000, 0}, {0xffff, 1, 1}, {0xffff, 0xffff, 0xffff}, {0x8000, 0x7fff, 1}, {2, 0xfffe, 0}} {
+		d := &gen.DNSBuilder{}
+		d.Header(uint16(r.IntN(65536)), 0x8180, 1, cnt[0], cnt[1], cnt[2])
+		labels := gen.RandLabels(r, 3)
+		d.Question(r, gen.NamePlain, labels, 1, 1)
+		for i := 0; i < 1+r.IntN(2); i++ {
+			d.RR(r, gen.NamePlain, labels, 1, 1, 60, rdataGen(r, d, 1, false), 0)
+		}
+		add("witness", fmt.Sprintf("counts-%x-%x-%x", cnt[0], cnt[1], cnt[2]), d.B)
+	}
 	n := env.Pick(3000, 120000)
 	for i := 0; i < n; i++ {
 		switch r.IntN(8) {
